@@ -114,6 +114,7 @@ def shrink(case, still_fails):
 
 def check(run):
     import genlib
+    genlib.validate_tabulation_objects(run, kinds=("dlpoly",), n=run.n(8, 60))
     genlib.validate_writer(run, "dlpoly", n=run.n(12, 120))
     run.rule = ("tracer models from one PRNG (1-4 potentials, nr 5..60 with nr mod 4 in {0,1,2,3}, dyadic delpot 2^-1..2^-5, labels <= 8 characters, "
                 "5 routes: DLPoly_PairTabulation, writePotentials('DL_POLY'), potable targets DL_POLY and DLPOLY, potable entry point); "
